@@ -219,20 +219,25 @@ func H_C04_killSome(doneI int, withPartial int) {
 	} else {
 		verifAssert(wantCount == 0 && partial == nil, "no report only when nothing was removed")
 	}
-	if final {
-		wrote := false
-		for _, n := range vkWrote {
-			if n == VdrKill {
-				wrote = true
-			}
+	wrote := false
+	for _, n := range vkWrote {
+		if n == VdrKill {
+			wrote = true
 		}
+	}
+	if final {
 		verifAssert(wrote, "C14: a final kill writes the _vdrkill report")
+	}
+	if wrote {
+		verifAssert(final, "C14: a kill which writes the fork's final _vdrkill report says so, so that the sweep adds the report (with what the fork's temporary directories held) to the pipestance total")
 	}
 }
 
-// H_C04_killNonVolatile: vdrKill on a non-volatile stage removes only the
+// H_C04_killNonVolatile(split, k): vdrKill on a non-volatile stage with k chunk
+// directories (a splitting stage whose split defined k = 0..3 chunks, or a
+// non-splitting stage with its one pseudo-chunk) removes exactly the
 // chunk-level files of a splitting stage, and reports their size.
-func H_C04_killNonVolatile(splitI int) {
+func H_C04_killNonVolatile(splitI, k int) {
 	disableUniquification = false
 	top := vsTop()
 	top.rt.Config.VdrMode = VdrRolling
@@ -240,7 +245,11 @@ func H_C04_killNonVolatile(splitI int) {
 	node, f := vsStageNode(top, "PROD", splitI != 0)
 	node.call.Call().Modifiers.Volatile = false
 	f.metadata.contents[CompleteFile] = struct{}{}
-	for i := 0; i < 2; i++ {
+	if splitI == 0 {
+		k = 1
+	}
+	f.chunks = nil
+	for i := 0; i < k; i++ {
 		c := &Chunk{fork: f, index: i, chunkDef: &ChunkDef{}}
 		c.metadata = NewMetadata(f.fqname+".chnk"+string(rune('0'+i)), f.path+"/chnk"+string(rune('0'+i)))
 		f.chunks = append(f.chunks, c)
@@ -264,8 +273,8 @@ func H_C04_killNonVolatile(splitI int) {
 		verifAssert(inChunk, "C04: a non-volatile stage only loses chunk files, never fork-level outputs")
 	}
 	if splitI != 0 {
-		verifAssert(len(vkRemoved) == 2, "C14: the chunk files of both chunks are reclaimed")
-		verifAssert(rep != nil && rep.Size == uint64(2*(vkWalkSize[0]+vkWalkSize[1])) && rep.Count == 4, "C14: the report totals what was removed")
+		verifAssert(len(vkRemoved) == k, "C14: the chunk files of every chunk of a splitting stage are reclaimed, however many chunks there are")
+		verifAssert(rep != nil && rep.Size == uint64(int64(k)*(vkWalkSize[0]+vkWalkSize[1])) && rep.Count == uint(2*k), "C14: the report totals what was removed")
 	} else {
 		verifAssert(len(vkRemoved) == 0, "C04: a non-splitting non-volatile stage loses nothing")
 	}
